@@ -687,7 +687,7 @@ def gen_backup(rng, tier):
             sim.lines.append('close %d' % (i + 1))
             sim.refs[i] -= 1
     sim.lines.append('gcwait')
-    sim.lines.append('load conc=%d' % rng.choice((1, 2, 3, 8)))
+    sim.lines.append('load conc=%d pre=%d' % (rng.choice((1, 2, 3, 8)), rng.randrange(2)))
     # the restored instance: one snapshot (number 1), fresh epoch counter
     sim.refs = [1]
     sim.iters = {}
